@@ -602,7 +602,8 @@ impl World {
             let delays: Vec<usize> = exp.verdicts.iter().filter(|(_, f, _)| *f == Fault::Delay).map(|(p, _, _)| *p).collect();
             for p in delays {
                 let held = tokio::select! {
-                    h = self.cluster.wait_held("the delayed page response to be parked", |a| a.request_entry().map(|e| entry_run(e) == Some(run)).unwrap_or(false)) => Some(h?),
+                    // (if the request never arrives the case deadline reports the hang)
+                    h = self.cluster.wait_held("the delayed page response to be parked", |a| a.request_entry().map(|e| entry_run(e) == Some(run)).unwrap_or(false)) => h.ok(),
                     _ = progress.wait(|s| s.end.clone()) => None,
                 };
                 let Some(held) = held else { break };
